@@ -132,8 +132,8 @@ prop("C12", "exploration",
      "distinct_nontrivial = distinct (operation, size class or Put shape, fresh/recycled) tuples checked plus engine cases. Thorough adds -race (=> checkptr) and -asan builds",
      [
          {"harness": "pool", "args": {"quick": ["--mode", "all", "--n", "600"], "thorough": ["--mode", "all"]}, "timeout": {"quick": 600, "thorough": 3400}},
-         {"harness": "pool", "race": True, "args": {"quick": ["--mode", "all", "--n", "80"], "thorough": ["--mode", "all", "--n", "3000"]}, "timeout": {"quick": 600, "thorough": 3400}, "crash_is_violation": True},
-         {"harness": "pool", "asan": True, "tiers": ["thorough"], "args": {"thorough": ["--mode", "all", "--n", "3000"]}, "timeout": {"thorough": 3400}, "crash_is_violation": True},
+         {"harness": "pool", "race": True, "args": {"quick": ["--mode", "all", "--n", "80"], "thorough": ["--mode", "all", "--n", "900"]}, "timeout": {"quick": 600, "thorough": 3400}, "crash_is_violation": True},
+         {"harness": "pool", "asan": True, "tiers": ["thorough"], "args": {"thorough": ["--mode", "all", "--n", "900"]}, "timeout": {"thorough": 3400}, "crash_is_violation": True},
          {"harness": "pool", "tiers": ["thorough"], "args": {"thorough": ["--mode", "huge"]}, "timeout": {"thorough": 1200}},
          {"harness": "eng", "flavour": "shim+pool", "args": {"quick": ["--mode", "c02", "--n", "5"], "thorough": ["--mode", "c02", "--n", "40"]}, "timeout": {"quick": 600, "thorough": 3400}},
          {"harness": "eng", "flavour": "shim+pool", "args": {"quick": ["--mode", "c01", "--n", "3"], "thorough": ["--mode", "c01", "--n", "40"]}, "timeout": {"quick": 600, "thorough": 3400}},
